@@ -196,7 +196,11 @@ func (b *listParser) Continue(node ast.Node, reader text.Reader, pc Context) Sta
 	lastIsEmpty := node.LastChild().ChildCount() == 0
 	indent, _ := util.IndentWidth(line, reader.LineOffset())
 
-	if indent < offset || lastIsEmpty {
+	// An empty item that has been followed by a blank line is over (an item can begin with at
+	// most one blank line), so the line may be a new child of the list whatever its
+	// indentation. Directly after the marker line, content indented to the item's offset
+	// (marker width + 1) belongs to the item.
+	if indent < offset || (lastIsEmpty && pc.Get(emptyListItemWithBlankLines) != nil) {
 		if indent < 4 {
 			match, typ := matchesListItem(line, false) // may have a leading spaces more than 3
 			if typ != notList && match[1]-offset < 4 {
